@@ -376,4 +376,52 @@ def rmLoopF (h : Nat) : Nat → Chain → Option Nat → Chain
 
 def rmToF (c : Chain) (h : Nat) (j : Nat) : Chain := rmLoopF h (topHeight c) c (some j)
 
+/-! ### Faults of the OTHER store: a statement on the sqlite `groupIndex` fails
+
+`save` calls `mysql.InsertGroup(group)` and `remove` calls `mysql.DeleteGroup(group.Id)` AFTER the
+LevelDB writes and the in-memory update, and `panic(err)` when the statement fails: the process
+dies with store and memory already advanced and the mirror row not written / not removed. A fork
+switch (`removeFromCommonAncestor`) is thereby cut after the removal whose statement failed. -/
+
+inductive SqlKind where
+  | ins | del
+  deriving DecidableEq, Repr
+
+/-- The statement that fails: an insert of / a delete for the row of group `id`. -/
+structure SqlFault where
+  kind : SqlKind
+  id : Bytes
+  deriving DecidableEq, Repr
+
+/-- `save` under a failing insert: the chain as `save` leaves it, and whether it panicked. -/
+def saveS (c : Chain) (g : Group) (f : SqlFault) : Chain × Bool :=
+  if f.kind = .ins ∧ f.id = g.id then ({ save c g with mirror := c.mirror }, true) else (save c g, false)
+
+def addGroupS (c : Chain) (g : Group) (f : SqlFault) : AddRes × Chain × Bool :=
+  match addCheck c g with
+  | .ok => let r := saveS c g f; (.ok, r.1, r.2)
+  | r => (r, c, false)
+
+/-- `remove` under a failing delete: (result, chain, panicked). -/
+def removeS (c : Chain) (g : Group) (f : SqlFault) : Bool × Chain × Bool :=
+  match getGroupById c.disk g.pre with
+  | none => (false, c, false)
+  | some _ =>
+    if f.kind = .del ∧ f.id = g.id then (true, { (remove c g).2 with mirror := c.mirror }, true)
+    else (true, (remove c g).2, false)
+
+/-- The removal loop; stops at the removal that panics. -/
+def rmLoopS (h : Nat) (f : SqlFault) : Nat → Chain → Chain × Bool
+  | 0, c => (c, false)
+  | t + 1, c =>
+    if t + 1 > h then
+      match getGroupByHeight c.disk (t + 1) with
+      | none => rmLoopS h f t c
+      | some g =>
+        let r := removeS c g f
+        if r.2.2 then (r.2.1, true) else rmLoopS h f t r.2.1
+    else (c, false)
+
+def rmToS (c : Chain) (h : Nat) (f : SqlFault) : Chain × Bool := rmLoopS h f (topHeight c) c
+
 end Rangers.Model.GroupChain
